@@ -1,6 +1,7 @@
 //! The simulated worlds. Each links the real rsdd code.
 pub mod bdd;
 pub mod cnf;
+pub mod ffi;
 pub mod lru;
 pub mod query;
 pub mod sat;
@@ -18,9 +19,10 @@ static CNF: cnf::CnfWorld = cnf::CnfWorld;
 static SDD: sdd::SddWorld = sdd::SddWorld;
 static QUERY: query::QueryWorld = query::QueryWorld;
 static SEMHASH: semhash::SemHashWorld = semhash::SemHashWorld;
+static FFI: ffi::FfiWorld = ffi::FfiWorld;
 
 pub fn all() -> Vec<&'static dyn World> {
-    vec![&TABLE, &LRU, &BDD, &SAT, &CNF, &SDD, &QUERY, &SEMHASH]
+    vec![&TABLE, &LRU, &BDD, &SAT, &CNF, &SDD, &QUERY, &SEMHASH, &FFI]
 }
 
 pub fn lookup(name: &str) -> Option<&'static dyn World> {
